@@ -164,6 +164,7 @@ theorem C28_parseExpr_terminates (c : Cx α) (hwf : c.env.wf = true) (hchk : che
 /-! ## Non-vacuity: the hypotheses hold for concrete grammars, and the two grammars that
 used to diverge (DESIGN §6) are now handled -/
 
+namespace Ex28
 def bA : Bytes := [0x61]          -- "a"
 def bX : Bytes := [0x78]          -- "x"
 def bDoc : Bytes := [0x64, 0x6f, 0x63]   -- "doc"
@@ -191,5 +192,7 @@ example : checkAll envLeftRec2 = .recur [0x62] := by decide
 /-- `*?"a"` on the input `b` returns the empty list after one zero-width iteration. -/
 example : (matchTop (cxOf envNullableRep [⟨kIDENT, [0x62], 1, 2⟩]) 20 bDoc).res matches .ok 0 (.list []) := by
   decide
+
+end Ex28
 
 end GopModel.Tpl
